@@ -214,3 +214,9 @@ def moved_file(fs, dst, fs0, src):
 @spec
 def wf_stager(s):
     return s._bytes == bsum(s._buf, len(s._buf)) and s._seq >= 0
+
+
+@spec
+def stager_bounded(s):
+    """memory bound of the staging buffer: within the byte limit, except for a single record that alone exceeds it"""
+    return s._bytes <= s.byte_limit or len(s._buf) <= 1
